@@ -273,10 +273,12 @@ Shoelace2(o) == NSum([k \in 1 .. Len(o) |-> LET p == o[k]
                                                  q == o[(k % Len(o)) + 1]
                                              IN  p[1] * q[2] - q[1] * p[2]], 1, Len(o))
 Domain2(g) == Abs(Shoelace2(g.OUT[1])) - NSum([h \in 2 .. Len(g.OUT) |-> Abs(Shoelace2(g.OUT[h]))], 2, Len(g.OUT))
-\* the triangles tile film minus holes, and so do the cells (tolerance: perimeter x 1 quantum)
+\* the triangles tile film minus holes (tolerance: perimeter x 1 quantum); so do the cells when every site is
+\* well centred (theorem AreasTile; elsewhere the property does not constrain the cells)
 GenTiling(g) ==
   /\ Abs(NSum([k \in 1 .. Len(g.T) |-> Orient(g.P, g.T[k])], 1, Len(g.T)) - Domain2(g)) <= 2 * g.PER
-  /\ Abs(2 * NSum([i \in 1 .. Len(g.A) |-> g.A[i]], 1, Len(g.A)) - Domain2(g)) <= 2 * g.PER
+  /\ (\A i \in 1 .. Len(g.SITE) : g.SITE[i].wc)
+        => Abs(2 * NSum([i \in 1 .. Len(g.A) |-> g.A[i]], 1, Len(g.A)) - Domain2(g)) <= 2 * g.PER + Len(g.A)
 \* per site: cell area = cotangent (clipped Voronoi) area wherever the mesh is well centred
 GenCellAreas(g) == \A i \in 1 .. Len(g.SITE) : g.SITE[i].wc => Abs(g.SITE[i].a - g.SITE[i].c) <= g.tol
 \* per edge: dual/edge ratio = (cot + cot)/2 where well centred; vectors, centres, lengths are those of the site pair
